@@ -11,17 +11,25 @@
                           boundary, else the facing dart of the adjacent cell
     C12_grid2_faces       the four darts of a cell form a β1-cycle; two darts are in the same face
                           iff they belong to the same cell (faces ↔ cells, nx·ny of them)
+    C12_grid2_corners / C12_grid2_vertices / C12_grid2_area
+                          `vertex_id` ↔ lattice points (bijection with the (nx+1)(ny+1) points), every vertex
+                          carries exactly origin + (i·lx, j·ly); faces counter-clockwise with area lx·ly
+    C12_build2_ok         `build()` on a valid plain-grid descriptor returns Ok with that map (the face-count
+                          debug assertion holds: `iter_faces` yields nx·ny ids)
     C12_split2_faces      same for the two triangles of a split cell, and the diagonal gluing
+    C12_split2_corners / C12_split2_vertices / C12_split2_area   the split grid's vertices, coordinates, areas
     C12_hex3_cells        the 24 darts of a cell are closed under β0, β1, β2 (volumes ↔ cells) and
                           β3 is null iff the face is on the outer boundary, else the facing dart
     C12_parse2/3_error_iff, C12_parse2/3_forms_agree   descriptor parsing
     C12_build2_zero_count_panics   the proved negation for the known finding D6
-  and the `NOT PROVED` blocks at the end.
+  and the `NOT PROVED` comment block (after `C12_grid2_area`).
 -/
 import Mathlib.Tactic.Ring
 import Mathlib.Algebra.Order.Field.Rat
 import Honeycomb.Lemmas.GridLink
 import Honeycomb.Lemmas.GridVertex
+import Honeycomb.Lemmas.GridVertexSplit
+import Honeycomb.Lemmas.GridFace
 import Honeycomb.Lemmas.Run
 import Honeycomb.Lemmas.WFLink
 
@@ -656,20 +664,14 @@ example : area2 (0, 0) (1, 0) (1, 1) (0, 1) = 2 := by
   simpa using this
 
 /-
-NOT PROVED: C12_build2_ok — for 0 < nx, 0 < ny and positive lengths,
-    build2 false o (some (nx, ny)) (some (lx, ly)) lens = .ok (buildGrid2 o.1 o.2 nx ny lx ly)
-  (and the split twin), i.e. the mirrored `debug_assert_eq!(map.iter_faces().count(), nx*ny)` never
-  fires.  Needs `faceId2` (a BFS) evaluated on the grid: iterFaces2 = the first darts of the cells.
-  The β1-cycle structure it would count is proved (`C12_grid2_faces`); the `face_id`-based count is
-  compared with the implementation for every size of the box by the correspondence run.
-
-NOT PROVED: C12_split2_corners / C12_split2_vertices — the split grid's analogue of
-  `C12_grid2_corners` / `C12_grid2_vertices`: with `m := buildSplit2 ox oy nx ny lx ly`, the vertices
-  at the origins of local darts 0..5 of cell (ix, iy) carry origin + (ix·lx, iy·ly), ((ix+1)·lx, iy·ly),
-  (ix·lx, (iy+1)·ly), (ix·lx, (iy+1)·ly), ((ix+1)·lx, iy·ly), ((ix+1)·lx, (iy+1)·ly); vertices ↔ the
-  (nx+1)(ny+1) lattice points; both triangles counter-clockwise with area lx·ly/2.  Same proof
-  scheme as `Lemmas/GridVertex.lean` with the 6-row table (vertex orbits of up to 6 darts); topology
-  and gluing of the split grid are proved (`C12_split2_WF`, `C12_split2_faces`).
+NOT PROVED: C12_build2_split_ok / C12_build3_ok — the twins of `C12_build2_ok` (proved below for the
+  plain grid): for positive counts and lengths
+    build2 true o (some (nx, ny)) (some (lx, ly)) lens = .ok (buildSplit2 o.1 o.2 nx ny lx ly)
+    build3 false o (some (nx, ny, nz)) (some (lx, ly, lz)) lens = .ok (buildHex3 …)
+  i.e. the mirrored `debug_assert_eq!` on `iter_faces().count() = 2·nx·ny` / `iter_volumes().count() =
+  nx·ny·nz` never fires.  Needs `face_id` / `volume_id` evaluated on those grids (same scheme as
+  `Lemmas/GridFace.lean`).  The cycle/cell structure they would count is proved
+  (`C12_split2_faces`, `C12_hex3_cells`); the counts are compared for every size of the box.
 
 NOT PROVED: C12_hex3_vertices — for `m := buildHex3 ox oy oz nx ny nz lx ly lz`, every dart `d` of cell
   (ix, iy, iz): m.att 0 (vid3 m d) = some (origin + ((ix+ax)·lx, (iy+ay)·ly, (iz+az)·lz)) with
@@ -686,5 +688,105 @@ NOT PROVED: the floating-point reading of all coordinate statements (they are ov
   correspondence run uses dyadic values for which every f64 operation is exact), in particular
   `ceil` on quotients that are not exactly representable (DESIGN.md §9).
 -/
+
+/-- `CMapBuilder::build` on a valid 2-D descriptor (positive counts and cell lengths, plain grid)
+    returns `Ok` with exactly the map the theorems above describe: `iter_faces` yields `nx·ny`
+    identifiers, so the final `debug_assert_eq!` holds, and nothing else can panic. -/
+theorem C12_build2_ok (o : Rat × Rat) {nx ny : Nat} {lpx lpy : Rat} (hnx : 0 < nx) (hny : 0 < ny)
+    (hx : 0 < lpx) (hy : 0 < lpy) (lens : Option (Rat × Rat)) :
+    build2 false o (some (nx, ny)) (some (lpx, lpy)) lens = .ok (buildGrid2 o.1 o.2 nx ny lpx lpy) ∧
+    (iterFaces2 (buildGrid2 o.1 o.2 nx ny lpx lpy)).length = nx * ny := by
+  have a1 := badLen_pos hx
+  have a2 := badLen_pos hy
+  have hf := GridFace.iterFaces_length hnx hny (sameTopo_grid2 o.1 o.2 nx ny lpx lpy)
+  refine ⟨?_, hf⟩
+  have h0 : ¬ (nx = 0 ∨ ny = 0) := by omega
+  unfold build2
+  rcases lens with _ | ⟨lx, ly⟩ <;> simp [parse2, a1, a2, h0, hf]
+
+example : build2 false (0, 0) (some (3, 2)) (some (2, 2)) none = .ok (buildGrid2 0 0 3 2 2 2) :=
+  (C12_build2_ok (0, 0) (by decide) (by decide) two_pos two_pos none).1
+
+/-! ## split grid: vertices, coordinates, triangle areas -/
+
+open GridVertexSplit in
+/-- Split grid, cell `(ix, iy)`: the vertices at the origins of local darts 0..5 carry
+    bottom-left, bottom-right, top-left | top-left, bottom-right, top-right corner of the cell:
+    triangle `0 1 2` is the lower-left half, triangle `3 4 5` the upper-right half, the diagonal
+    runs from the bottom-right to the top-left corner. -/
+theorem C12_split2_corners (ox oy lx ly : Rat) {nx ny ix iy : Nat} (hnx : 0 < nx) (hny : 0 < ny)
+    (hx : ix < nx) (hy : iy < ny) :
+    let m := buildSplit2 ox oy nx ny lx ly
+    let V := fun (k : Nat) => m.att 0 (vid2 m (dartOf 6 nx ny ix iy 0 k))
+    let P := fun (i j : Nat) => some (Val.pt (ox + ((i : Nat) : Rat) * lx) (oy + ((j : Nat) : Rat) * ly) 0)
+    V 0 = P ix iy ∧ V 1 = P (ix + 1) iy ∧ V 2 = P ix (iy + 1) ∧
+    V 3 = P ix (iy + 1) ∧ V 4 = P (ix + 1) iy ∧ V 5 = P (ix + 1) (iy + 1) := by
+  intro m V P
+  have h : ∀ k, k < 6 → V k = some (coord ox oy lx ly (ix + cdx k, iy + cdy k)) := by
+    intro k hk
+    have hd : IsDart nx ny (D nx ny ix iy k) := ⟨ix, iy, k, hx, hy, hk, rfl⟩
+    have := grid2_att ox oy lx ly hnx hny hd
+    rw [pt_D hx hk] at this
+    exact this
+  exact ⟨h 0 (by decide), h 1 (by decide), h 2 (by decide), h 3 (by decide), h 4 (by decide), h 5 (by decide)⟩
+
+open GridVertexSplit in
+/-- Split grid, vertices ↔ lattice points (same statement as `C12_grid2_vertices`) -/
+theorem C12_split2_vertices (ox oy lx ly : Rat) {nx ny : Nat} (hnx : 0 < nx) (hny : 0 < ny) :
+    let m := buildSplit2 ox oy nx ny lx ly
+    (∀ d e, IsDart nx ny d → IsDart nx ny e → (vid2 m d = vid2 m e ↔ pt nx d = pt nx e)) ∧
+    (∀ d, IsDart nx ny d → (pt nx d).1 ≤ nx ∧ (pt nx d).2 ≤ ny ∧
+      m.att 0 (vid2 m d) = some (.pt (ox + ((pt nx d).1 : Rat) * lx) (oy + ((pt nx d).2 : Rat) * ly) 0)) ∧
+    (∀ i j, i ≤ nx → j ≤ ny → ∃ d, IsDart nx ny d ∧ pt nx d = (i, j)) ∧
+    (∀ d, 1 ≤ d → d ≤ 6 * nx * ny → IsDart nx ny d) := by
+  intro m
+  have st := sameTopo_split2 ox oy nx ny lx ly
+  refine ⟨?_, ?_, ?_, ?_⟩
+  · intro d e hd he
+    constructor
+    · intro h
+      rw [← (vid_pt hnx hny st hd).1, ← (vid_pt hnx hny st he).1]
+      exact congrArg (pt nx) h
+    · intro h
+      exact vid_same hnx hny st st hd he h
+  · intro d hd
+    obtain ⟨a, b, k, ha, hb, hk, rfl⟩ := hd
+    have hd : IsDart nx ny (D nx ny a b k) := ⟨a, b, k, ha, hb, hk, rfl⟩
+    have e := pt_D (ny := ny) (b := b) ha hk
+    have c1 : cdx k ≤ 1 := by unfold cdx; split <;> omega
+    have c2 : cdy k ≤ 1 := by unfold cdy; split <;> omega
+    refine ⟨by rw [e]; simp; omega, by rw [e]; simp; omega, ?_⟩
+    exact grid2_att ox oy lx ly hnx hny hd
+  · intro i j hi hj
+    obtain ⟨blk, hblk, c, _, hc1, hc2, hp⟩ := squarePlace_covers hnx hny hi hj
+    exact ⟨_, ⟨c.1, c.2, blk.2.1 - 1, hc1, hc2, by have := (squarePlace_good blk hblk).2.2.1; omega, rfl⟩, hp⟩
+  · intro d h1 h2
+    exact isDart_of_range hnx hny h1 h2
+
+/-- twice the signed area of the triangle `p q r` -/
+def tri2 (p q r : Rat × Rat) : Rat :=
+  (p.1 * q.2 - q.1 * p.2) + (q.1 * r.2 - r.1 * q.2) + (r.1 * p.2 - p.1 * r.2)
+
+/-- both triangles of a split cell (corners of `C12_split2_corners`, in face order) have signed
+    area `lx·ly/2`: counter-clockwise for positive cell lengths -/
+theorem C12_split2_area (ox oy lx ly : Rat) (ix iy : Nat) :
+    let x0 := ox + ((ix : Nat) : Rat) * lx
+    let x1 := ox + ((ix + 1 : Nat) : Rat) * lx
+    let y0 := oy + ((iy : Nat) : Rat) * ly
+    let y1 := oy + ((iy + 1 : Nat) : Rat) * ly
+    tri2 (x0, y0) (x1, y0) (x0, y1) = lx * ly ∧ tri2 (x0, y1) (x1, y0) (x1, y1) = lx * ly ∧
+    (0 < lx → 0 < ly → 0 < lx * ly) := by
+  intro x0 x1 y0 y1
+  refine ⟨?_, ?_, fun hx hy => Rat.mul_pos hx hy⟩
+  · simp only [tri2, x0, x1, y0, y1]
+    push_cast
+    ring
+  · simp only [tri2, x0, x1, y0, y1]
+    push_cast
+    ring
+
+example : ∃ v, (buildSplit2 0 0 2 2 1 1).att 0 (vid2 (buildSplit2 0 0 2 2 1 1) (dartOf 6 2 2 1 1 0 5)) = some v :=
+  ⟨_, (C12_split2_corners 0 0 1 1 (nx := 2) (ny := 2) (ix := 1) (iy := 1) (by decide) (by decide)
+    (by decide) (by decide)).2.2.2.2.2⟩
 
 end HC.C12
